@@ -145,3 +145,18 @@ def gplain(rng, maxstmts=4):
         return rng.choice(['-- c;\n', 'x', 'y.z'])
     stmts = [' '.join(item(0) for _ in range(rng.randint(1, 5))) for _ in range(rng.randint(1, maxstmts))]
     return rng.choice(['; ', ';\n', ' ;  ', ';']).join(stmts) + rng.choice(['', ';', ' ; '])
+
+
+def scale_texts(rng):
+    """statements that are LARGE in one dimension (the property has no size bound): long lists, long condition chains, many tokens (the re-spelled
+    text has more whitespace tokens than the original), deep nesting, many statements"""
+    for n in (130, 1100, 2600):
+        yield 'select ' + ', '.join('c%d' % i for i in range(n)) + ' from t where a = 1 order by c1'
+        yield 'select ' + ', '.join('f(c%d) as x%d' % (i, i) for i in range(n // 2)) + ' from t1 x join t2 y on x.i = y.i'
+    yield 'select a from t where ' + ' and '.join('c%d = %d' % (i, i) for i in range(900)) + ' group by a'
+    yield 'insert into t (a, b) values ' + ', '.join('(%d, %d)' % (i, i) for i in range(700))
+    yield 'select case ' + ' '.join('when a = %d then %d' % (i, i) for i in range(400)) + ' else 0 end from t'
+    for d in (25, 60):
+        yield 'select q from ' + '(select q from ' * d + 't' + ') s' * d + ' where x = 1'
+    yield '; '.join('select %d from t%d where x = %d' % (i, i, i) for i in range(400))
+    yield 'create procedure p() begin ' + ' '.join('if a%d then update t set x = %d; end if;' % (i, i) for i in range(150)) + ' end; select 1'
